@@ -98,7 +98,8 @@ class GenFile(Relation):
     shard = 40
     describe = ('Generator(argv) for legal vectors of all four types with numpy.random.randint/choice and random.shuffle '
                 'recorded: the files written equal, byte for byte, the model\'s text built from the recorded draws; names '
-                '0.txt..; second side is a shuffle of the inversion; non-trivial = two-sided or ties present')
+                '0.txt..; second side is a shuffle of the inversion; the same files also result from the composed model '
+                '(argparse namespace -> decide -> defaults -> gargs_of -> generate); non-trivial = two-sided or ties present')
 
     def cases(self, ctx):
         return gen_runs(ctx, 'genfile', 400 if ctx.thorough else 80)
@@ -110,9 +111,10 @@ class GenFile(Relation):
         if obs['code'] != 0 or obs['draws'] is None:
             return 'false'
         files = C.clist(['(%s, %s)' % (C.cstr(n), C.cstr(t)) for n, t in obs['files']])
-        return '(r_genfile %s %s %s && forallb (draws_ok %s) %s)' % (
-            G.cgargs(inp['ns']), C.clist([G.cdraws(d) for d in obs['draws']]), files,
-            G.cgargs(inp['ns']), C.clist([G.cdraws(d) for d in obs['draws']]))
+        ds = C.clist([G.cdraws(d) for d in obs['draws']])
+        return '(r_genfile %s %s %s && forallb (draws_ok %s) %s && r_generator %s %s %s %s %s)' % (
+            G.cgargs(inp['ns']), ds, files, G.cgargs(inp['ns']), ds,
+            G.cnamespace(inp['ns']), G.cfloatstrs(inp['ns']), G.cgargs(inp['ns']), ds, files)
 
     def diag(self, inp, obs):
         if obs['code'] != 0 or obs['draws'] is None:
